@@ -375,7 +375,7 @@ def _r3(ctx):
                           'the callCellValue event must carry Cell(upper-cased label, row record of its digits with the marker before the '
                           'digits, column record of its letters with the leading marker), all decomposed from the upper-cased label; got %s'
                           % why, func=key[1])
-    res.floor('cell payload traces', n, 1)
+    res.soft_floor('cell payload traces', n, 1)
 
 
 def _r4(ctx):
@@ -474,7 +474,7 @@ def _r4(ctx):
                           'the callRangeValue payload is not self-consistent: %s' % '; '.join(problems[:3]),
                           case=' & '.join('%s=%s' % (t[:60], a) for (t, a, s) in o.notes if isinstance(s, Atom) and s.op in ('le', 'lt', 'ge', 'gt')),
                           func=key[1])
-    res.floor('range payload traces', n, 1)
+    res.soft_floor('range payload traces', n, 1)
 
 
 def _r7(ctx):
